@@ -15,14 +15,19 @@ package history
 //@   ensures result == len(entries(self))
 
 //@ fntype (Source).GetLine
-//@   assumed interface contract: total (never panics); in range it returns the stored line and no error
+//@   assumed interface contract: total (never panics); in range it returns the stored line and no error; out of range it returns an error or the empty string
 //@   pure
 //@   ensures 0 <= p0 && p0 < len(entries(self)) ==> result1 == nil && result0 == entries(self)[p0]
+//@   ensures !(0 <= p0 && p0 < len(entries(self))) ==> result1 != nil || (len(result0) == 0 && len(entries(self)) == 0)
+
+// appended1(s, line): source s got exactly one new entry, equal to line up to surrounding white space
+//@ pred appended1(s Source, line string) = len(entries(s)) == old(len(entries(s))) + 1 && entries(s)[:old(len(entries(s)))] == old(entries(s)) && strtrim(entries(s)[old(len(entries(s)))]) == strtrim(line)
 
 //@ fntype (Source).Write
-//@   assumed interface contract: appends at most one entry; earlier entries are never modified
+//@   assumed interface contract: appends at most one entry, equal to the argument up to surrounding white space; earlier entries are never modified; a non-blank line different from the last entry is always appended
 //@   assigns entries(self)
-//@   ensures entries(self) == old(entries(self)) || (len(entries(self)) == old(len(entries(self))) + 1 && entries(self)[:old(len(entries(self)))] == old(entries(self)))
+//@   ensures entries(self) == old(entries(self)) || appended1(self, p0)
+//@   ensures len(strtrim(p0)) > 0 && (old(len(entries(self))) == 0 || strtrim(old(entries(self))[old(len(entries(self))) - 1]) != strtrim(p0)) ==> appended1(self, p0)
 
 // memory: entries(h) is h.items
 //@ func (*memory).Len
@@ -38,6 +43,7 @@ package history
 //@   requires h != nil
 //@   pure
 //@   ensures 0 <= i && i < len(h.items) ==> result1 == nil && result0 == h.items[i]
+//@   ensures !(0 <= i && i < len(h.items)) ==> result1 != nil || (len(result0) == 0 && len(h.items) == 0)
 
 //@ func (*memory).Write
 //@   props C08 C09 C01
@@ -60,6 +66,7 @@ package history
 //@   requires h != nil
 //@   pure
 //@   ensures 0 <= pos && pos < len(h.lines) ==> result1 == nil && result0 == h.lines[pos].Block
+//@   ensures !(0 <= pos && pos < len(h.lines)) ==> result1 != nil || (len(result0) == 0 && len(h.lines) == 0)
 
 // ---------------------------------------------------------------------------------------
 // Undo history (C07)
@@ -134,6 +141,7 @@ package history
 //@   ensures [cursor] old(core.cok(h.cursor)) ==> h.cursor.pos == old(h.cursor.pos) && h.cursor.mark == old(h.cursor.mark)
 //@   ensures [cursor] h.cursor.pos == old(h.cursor.pos) || core.cclamp(h.cursor)
 //@   ensures !h.skip && !h.undoing
+//@   ensures [saved] !old(h.skip) && hcur(h) != nil ==> curlh(h) != nil && len(curlh(h).items) > 0 && curlh(h).items[len(curlh(h).items) - 1].line == htext(h)
 //@   ensures @C07 [same-history] old(hnorm(h)) ==> curlh(h) == old(curlh(h))
 //@   ensures @C07 [skip-noop] old(h.skip) ==> allobj(x, "*lineHistory", x.items == old(x.items))
 //@   ensures @C07 [others-untouched] allobj(x, "*lineHistory", x == old(curlh(h)) || !old(allocated(x)) || x.items == old(x.items))
@@ -175,3 +183,137 @@ package history
 //@   requires hvalid(h) && allok() && !h.undoing
 //@   assigns h.skip, h.undoing, *h.line, h.cursor.pos, h.cursor.mark, mapof(h.lines), anymapof("map[int]*lineHistory"), anyof("lineHistory", "pos"), anyof("lineHistory", "items")
 //@   ensures [ri] allok()
+
+// ---------------------------------------------------------------------------------------
+// C08: accepted lines are recorded exactly once
+
+// recorded(s): what Write(false) must have done to bound source s for the accepted text
+//@ spec hline(h *Sources) string = str(*h.line)
+//@ pred isdup(s Source, line string) = old(len(entries(s))) > 0 && len(old(entries(s))[old(len(entries(s))) - 1]) > 0 && strtrim(old(entries(s))[old(len(entries(s))) - 1]) == strtrim(line)
+//@ pred isfull(h *Sources, s Source) = h.maxEntries == 0 || (h.maxEntries > 0 && old(len(entries(s))) >= h.maxEntries)
+// sources bound under different names are different objects: stated through a ghost "the name this source
+// is bound under", which makes distinctness a congruence argument for the solver
+//@ ghost srcname(s Source) string
+//@ pred hdistinct(h *Sources) = allkeys(a, h.list, h.list[a] == nil || srcname(h.list[a]) == a)
+
+//@ func (*Sources).Write
+//@   props C08 C01
+//@   terminates
+//@   requires hvalid(h) && hdistinct(h) && h.hint != nil
+//@   assigns h.infer, anyghost(entries), anyof("ui.Hint", "*")
+//@   ensures [never-when-replaying] infer ==> allobj(s, "Source", entries(s) == old(entries(s)))
+//@   ensures [never-blank] len(strtrim(hline(h))) == 0 ==> allobj(s, "Source", entries(s) == old(entries(s)))
+//@   ensures [at-most-once] allobj(s, "Source", entries(s) == old(entries(s)) || appended1(s, hline(h)))
+//@   ensures [only-bound-sources] allobj(s, "Source", entries(s) == old(entries(s)) || !allkeys(k, h.list, h.list[k] != s))
+//@   ensures [exactly-once] !infer && len(strtrim(hline(h))) > 0 ==> allkeys(k, h.list, h.list[k] == nil || isfull(h, h.list[k]) || isdup(h.list[k], hline(h)) || appended1(h.list[k], hline(h)))
+//@   loop 1 invariant 0 <= itpos && itpos <= len(itkeys) && !infer && len(strtrim(hline(h))) > 0 && line == hline(h) && *h.line == old(*h.line)
+//@   loop 1 invariant allobj(s, "Source", entries(s) == old(entries(s)) || (appended1(s, hline(h)) && any(j, 0, itpos, h.list[itkeys[j]] == s)))
+//@   loop 1 invariant all(j, 0, itpos, h.list[itkeys[j]] == nil || isfull(h, h.list[itkeys[j]]) || isdup(h.list[itkeys[j]], hline(h)) || appended1(h.list[itkeys[j]], hline(h)))
+
+//@ func (*Sources).Accept
+//@   props C08 C06 C01
+//@   terminates
+//@   requires hvalid(h) && hdistinct(h) && h.hint != nil
+//@   ensures [returned-is-buffer] h.accepted && h.acceptLine == old(*h.line) && h.acceptErr == err && h.acceptHold == hold
+//@   ensures [errors-not-recorded] err != nil ==> allobj(s, "Source", entries(s) == old(entries(s)))
+//@   ensures [replays-not-recorded] infer ==> allobj(s, "Source", entries(s) == old(entries(s)))
+//@   ensures [at-most-once] allobj(s, "Source", entries(s) == old(entries(s)) || appended1(s, str(old(*h.line))))
+//@   ensures [exactly-once] err == nil && !infer && len(strtrim(str(old(*h.line)))) > 0 ==> allkeys(k, h.list, h.list[k] == nil || isfull(h, h.list[k]) || isdup(h.list[k], str(old(*h.line))) || appended1(h.list[k], str(old(*h.line))))
+
+//@ func (*Sources).LineAccepted
+//@   props C08 C06 C01
+//@   terminates
+//@   requires hvalid(h) && h.config != nil
+//@   ensures [returned-is-accepted] h.accepted ==> result0 && result1 == str(h.acceptLine) && result2 == h.acceptErr
+//@   ensures !h.accepted ==> !result0
+//@   ensures allobj(s, "Source", entries(s) == old(entries(s)))
+
+// ---------------------------------------------------------------------------------------
+// C09: history navigation and search are faithful and non-destructive.
+// None of these functions has entries(...) in its assigns clause: the frame obligations prove that the
+// sources are never modified; the postconditions say what ends up in the buffer.
+
+//@ pred hnav(h *Sources) = hvalid(h) && allok() && !h.undoing && h.config != nil && h.hint != nil && -1 <= h.hpos
+// the text the user was typing: what Save put in slot -1 of the active source's line histories
+//@ spec typedlh(h *Sources) *lineHistory = mget(hmap(h), -1)
+
+//@ func (*Sources).setLineCursorMatch
+//@   props C09 C01
+//@   terminates
+//@   requires hvalid(h) && h.config != nil
+//@   assigns *h.line, h.cursor.pos, h.cursor.mark, h.cpos
+//@   ensures *h.line == runes(next) && core.cok(h.cursor)
+
+//@ func (*Sources).restoreLineBuffer
+//@   props C09 C01
+//@   terminates
+//@   requires hvalid(h)
+//@   assigns h.hpos, *h.line, h.cursor.pos, h.cursor.mark, mapof(h.lines)
+//@   ensures h.hpos == -1
+//@   ensures [restores-typed-text] hcur(h) != nil && old(typedlh(h)) != nil && old(len(typedlh(h).items)) > 0 ==> *h.line == runes(old(typedlh(h).items[len(typedlh(h).items) - 1].line))
+//@   ensures [or-keeps] !(hcur(h) != nil && old(typedlh(h)) != nil && old(len(typedlh(h).items)) > 0) ==> *h.line == old(*h.line)
+
+//@ func (*Sources).Walk
+//@   props C09 C01
+//@   terminates
+//@   requires hnav(h)
+//@   assigns h.hpos, h.cpos, h.skip, h.undoing, *h.line, h.cursor.pos, h.cursor.mark, mapof(h.lines), anymapof("map[int]*lineHistory"), anyof("lineHistory", "pos"), anyof("lineHistory", "items"), anyof("ui.Hint", "*")
+//@   ensures [sources-untouched] allobj(s, "Source", entries(s) == old(entries(s)))
+//@   ensures [position-in-range] hcur(h) != nil ==> -1 <= h.hpos && h.hpos <= max(len(entries(hcur(h))), old(h.hpos))
+//@   ensures [shows-entry] hcur(h) != nil && h.hpos >= 1 && h.hpos <= len(entries(hcur(h))) && h.hpos != old(h.hpos) && (curlh(h) == nil || len(curlh(h).items) == 0) ==> *h.line == runes(entries(hcur(h))[len(entries(hcur(h))) - h.hpos])
+//@   ensures [shows-edited-entry] hcur(h) != nil && h.hpos >= 1 && h.hpos <= len(entries(hcur(h))) && h.hpos != old(h.hpos) && curlh(h) != nil && len(curlh(h).items) > 0 ==> *h.line == runes(curlh(h).items[len(curlh(h).items) - 1].line)
+//@   ensures [step] hcur(h) != nil && len(entries(hcur(h))) > 0 && old(h.hpos) >= 1 && old(h.hpos) + pos >= 1 && old(h.hpos) + pos <= len(entries(hcur(h))) && !(old(h.hpos) == len(entries(hcur(h))) && pos == 1) ==> h.hpos == old(h.hpos) + pos
+
+//@ func (*Sources).Fetch
+//@   props C09 C01
+//@   terminates
+//@   requires hnav(h)
+//@   assigns h.cpos, *h.line, h.cursor.pos, h.cursor.mark, anyof("ui.Hint", "*")
+//@   ensures [sources-untouched] allobj(s, "Source", entries(s) == old(entries(s)))
+//@   ensures [entry-or-unchanged] *h.line == old(*h.line) || (hcur(h) != nil && 0 <= pos && pos < len(entries(hcur(h))) && *h.line == runes(entries(hcur(h))[pos]))
+
+//@ func (*Sources).GetLast
+//@   props C09 C01
+//@   terminates
+//@   requires hvalid(h)
+//@   pure
+//@   ensures hcur(h) != nil && len(entries(hcur(h))) > 0 ==> result == entries(hcur(h))[len(entries(hcur(h))) - 1]
+//@   ensures hcur(h) == nil || len(entries(hcur(h))) == 0 ==> len(result) == 0
+
+//@ func (*Sources).match
+//@   props C09 C01
+//@   terminates
+//@   requires hvalid(h) && match != nil && (cur != nil ==> core.cvalid(cur)) && (hcur(h) != nil ==> h.hpos <= len(entries(hcur(h))))
+//@   assigns cur.pos, cur.mark
+//@   ensures [match-is-entry] result2 && len(entries(hcur(h))) > 0 ==> hcur(h) != nil && 0 <= result1 && result1 < len(entries(hcur(h))) && result0 == entries(hcur(h))[result1]
+//@   ensures [match-is-entry] result2 && len(entries(hcur(h))) == 0 ==> len(result0) == 0
+//@   ensures [no-match] !result2 ==> len(result0) == 0 && result1 == 0
+//@   ensures [prefix-match] result2 && !regex && cur == nil ==> len(str(*match)) <= len(result0) && (len(str(*match)) > 0 ==> result0[:len(str(*match))] == str(*match))
+//@   loop 1 invariant hcur(h) != nil && history == hcur(h) && (fwd ==> -1 <= histPos) && (!fwd ==> histPos <= len(entries(history))) && (cur != nil ==> core.cvalid(cur)) && *match == old(*match)
+//@   loop 1 decreases ite(fwd, len(entries(history)) - histPos, histPos)
+
+//@ func (*Sources).getLine
+//@   props C09 C01
+//@   terminates
+//@   requires hnav(h) && clean(*h.line) && (line != nil ==> cur == nil || cur.line == line)
+//@   assigns h.skip, h.undoing, h.cursor.pos, h.cursor.mark, mapof(h.lines), anymapof("map[int]*lineHistory"), anyof("lineHistory", "pos"), anyof("lineHistory", "items")
+//@   ensures result0 != nil && core.cvalid(result1) && result1.line == result0 && allok()
+//@   ensures line != nil ==> result0 == line
+//@   ensures (result0 == line || fresh(result0)) && (result1 == cur || fresh(result1))
+//@   ensures [uses-typed-text] line == nil && old(h.hpos) == -1 && hcur(h) != nil ==> *result0 == old(*h.line)
+
+//@ func (*Sources).InsertMatch
+//@   props C09 C01
+//@   terminates
+//@   requires hnav(h) && clean(*h.line) && (line != nil ==> cur == nil || cur.line == line) && (hcur(h) != nil ==> h.hpos <= len(entries(hcur(h))))
+//@   assigns h.hpos, h.skip, h.undoing, *h.line, h.cursor.pos, h.cursor.mark, cur.pos, cur.mark, mapof(h.lines), anymapof("map[int]*lineHistory"), anyof("lineHistory", "pos"), anyof("lineHistory", "items")
+//@   ensures [sources-untouched] allobj(s, "Source", entries(s) == old(entries(s)))
+//@   ensures [entry-or-typed-text] *h.line == old(*h.line) || (hcur(h) != nil && len(entries(hcur(h))) > 0 && 1 <= h.hpos && h.hpos <= len(entries(hcur(h))) && *h.line == runes(entries(hcur(h))[len(entries(hcur(h))) - h.hpos])) || (h.hpos == -1 && curlh(h) != nil && curlh(h).pos >= 1 && curlh(h).pos <= len(curlh(h).items) && *h.line == runes(curlh(h).items[len(curlh(h).items) - curlh(h).pos].line)) || (hcur(h) != nil && len(entries(hcur(h))) == 0 && len(*h.line) == 0) || (fwd && h.hpos == -1)
+
+//@ func (*Sources).InferNext
+//@   props C09 C01
+//@   terminates
+//@   requires hvalid(h) && (hcur(h) != nil ==> h.hpos <= len(entries(hcur(h))))
+//@   assigns *h.line, h.cursor.pos, h.cursor.mark
+//@   ensures [sources-untouched] allobj(s, "Source", entries(s) == old(entries(s)))
+//@   ensures [entry-or-unchanged] *h.line == old(*h.line) || (hcur(h) != nil && any(i, 0, len(entries(hcur(h))), *h.line == runes(entries(hcur(h))[i])))
